@@ -12,8 +12,8 @@ import (
 	"verifharness/internal/spy"
 	"verifharness/internal/vt"
 
-	bitcoin_reader "github.com/tokenized/bitcoin_reader"
 	"github.com/google/uuid"
+	bitcoin_reader "github.com/tokenized/bitcoin_reader"
 	"github.com/tokenized/pkg/bitcoin"
 	"pgregory.net/rapid"
 )
